@@ -11,6 +11,13 @@ func init() {
 			c.Do("C03.a", "L1 winner-only side effects", 9, func() { clDeleteNodeWinner(c) })
 			c.Do("C03.b", "L10 atomic-write discipline", 10, func() { clAtomicWriteDiscipline(c) })
 			c.Do("C03.c", "L6 CAS outcomes consumed", 8, func() { clCASOutcomesConsumed(c) })
+			c.Do("C03.d", "L2+L5 skiplist local obligations (shared with C13)", 12, func() {
+				clInsertPublish(c)
+				clMarkCAS(c)
+				clSoftDeleteTable(c)
+				clFindPathHelps(c)
+				clInsertStopsWhenMarked(c)
+			})
 		},
 	})
 }
